@@ -9,6 +9,10 @@ class AnchorMissing(Exception):
     pass
 
 
+# rules that the closure view may overrule (see Check.finish)
+SECOND_OPINION_RULES = [r'^C07-SIB-named\|', r'^C09-MUST-rollback\|', r'^C10-MUST-rollback\|', r'^C10-SIB-view\|', r'^C02-SIB-header\|', r'^C08-FLOW-propagate\|', r'^C09-MUST-reject\|.*\|error-propagated$']
+
+
 class Check:
     def __init__(self, pid, tier, level, seed=0):
         self.pid = pid
@@ -95,9 +99,17 @@ class Check:
                 flat_keys = set(_re.findall(r'\[(C\d+-[^\]]+)\]', r.stdout))
                 usable = r.returncode in (0, 1) and 'Traceback' not in r.stdout + r.stderr and 'ANALYSIS-ERROR' not in r.stdout
                 if usable:
+                    # conservative: only rules whose obligations are about WHERE an event happens relative to another (and that were seen to
+                    # alarm when a test or a clean-up moved into a closure) may be overruled, and only when the closure view derives NO
+                    # violation of that rule at all (a rule that fails differently there is not a confirmation of anything)
+                    flat_rules = {tuple(k.split('|')[:2]) for k in flat_keys}
                     kept, dropped = [], []
                     for v in new_viol:
-                        (kept if v['key'] in flat_keys else dropped).append(v)
+                        rid = tuple(v['key'].split('|')[:2])
+                        if v['key'] in flat_keys or rid in flat_rules or not any(_re.search(rx_, v['key']) for rx_ in SECOND_OPINION_RULES):
+                            kept.append(v)
+                        else:
+                            dropped.append(v)
                     if dropped:
                         dk = {v['key'] for v in dropped}
                         for o in self.obligations:
